@@ -86,7 +86,11 @@ def export_xyz(cloud, write_colors=True, delimiter=None):
 
     # compile data into a blob
     data = cloud.vertices
-    if write_colors and hasattr(cloud, "colors") and cloud.colors is not None:
+    if (
+        write_colors
+        and hasattr(cloud, "colors")
+        and np.shape(cloud.colors) == (len(cloud.vertices), 4)
+    ):
         # stack colors and  vertices
         data = np.hstack((data, cloud.colors))
 
